@@ -199,7 +199,7 @@ func fromEntry(ctx context.Context, services coreiface.CoreAPI, sourceEntries []
 	var sliced []iface.IPFSLogEntry
 
 	if length > -1 {
-		sliced = entryLastN(uniques, length)
+		sliced = entryLastNKeeping(uniques, length, sourceEntries)
 	} else {
 		sliced = uniques
 	}
@@ -224,6 +224,35 @@ func entryLastN(entries []iface.IPFSLogEntry, n int) []iface.IPFSLogEntry {
 	}
 
 	return entries[len(entries)-n:]
+}
+
+// entryLastNKeeping returns n of the (sorted) entries: every entry of keep plus
+// the last ones of the others (all of them if there are at most n)
+func entryLastNKeeping(entries []iface.IPFSLogEntry, n int, keep []iface.IPFSLogEntry) []iface.IPFSLogEntry {
+	if n >= len(entries) {
+		return entries
+	}
+
+	kept := map[string]struct{}{}
+	for _, e := range keep {
+		kept[e.GetHash().String()] = struct{}{}
+	}
+
+	quota := n - len(kept)
+	out := make([]iface.IPFSLogEntry, 0, len(entries))
+
+	for i := len(entries) - 1; i >= 0; i-- {
+		if _, ok := kept[entries[i].GetHash().String()]; ok {
+			out = append(out, entries[i])
+		} else if quota > 0 {
+			out = append(out, entries[i])
+			quota--
+		}
+	}
+
+	sorting.Reverse(out)
+
+	return out
 }
 
 func entrySlice(entries []iface.IPFSLogEntry, index int) []iface.IPFSLogEntry {
